@@ -21,6 +21,7 @@ inductive Exc where
   | indexError
   | valueError
   | generatorExit
+  | outOfFuel      -- not a Python exception: a translated `while` loop ran out of its fuel bound
 deriving DecidableEq, Repr
 
 /-- outcome of a loop body / of a whole `for` loop:
